@@ -93,7 +93,7 @@ func confirm(np *nativeProc, rf *ReplayFile) (bool, nativeResult) {
 		}
 	case "panic", "exit":
 		ok = r.Outcome == "panic" || r.Outcome == "crash"
-	case "deadlock":
+	case "deadlock", "hang":
 		ok = r.Outcome == "timeout"
 	case "race":
 		bin, err := buildNative("race", true)
@@ -237,9 +237,7 @@ func propertyMain(id string, args []string) int {
 		if len(hr.EngineErrs) > 0 {
 			inconclusive = append(inconclusive, fmt.Sprintf("%s: ENGINE-ERROR %s", name, hr.EngineErrs[0]))
 		}
-		if len(hr.Budget) > 0 {
-			inconclusive = append(inconclusive, fmt.Sprintf("%s: UNWIND-EXCEEDED %s", name, hr.Budget[0]))
-		}
+
 		if hr.Truncated {
 			inconclusive = append(inconclusive, fmt.Sprintf("%s: path limit reached, exploration incomplete", name))
 		}
@@ -292,6 +290,7 @@ func propertyMain(id string, args []string) int {
 		// candidate violations
 		seen := map[string]bool{}
 		twinHit := false
+		hangConfirmed := false
 		for _, v := range hr.Violations {
 			key := v.V.Kind + "|" + v.V.Label
 			if hr.Spec.Twin {
@@ -325,6 +324,12 @@ func propertyMain(id string, args []string) int {
 				continue
 			}
 			ok, nr := confirm(np, rf)
+			if v.V.Kind == "hang" {
+				if !ok {
+					continue // stays an UNWIND-EXCEEDED inconclusive below
+				}
+				hangConfirmed = true
+			}
 			if !ok && (hr.Spec.Sched || hr.Spec.MapOrder) {
 				// the counterexample needs a particular goroutine schedule: the
 				// native run (one arbitrary schedule) did not hit it. It is
@@ -367,6 +372,9 @@ func propertyMain(id string, args []string) int {
 			say("  %s/%s: %s [%s] native: %s %s", v.Harness, v.V.Label, firstLine(v.V.Detail), rf.Input, nr.Outcome, firstLine(nr.Detail))
 			violations++
 			exit = 1
+		}
+		if len(hr.Budget) > 0 && !hangConfirmed {
+			inconclusive = append(inconclusive, fmt.Sprintf("%s: UNWIND-EXCEEDED %s", name, hr.Budget[0]))
 		}
 		if hr.Spec.Twin && !twinHit {
 			inconclusive = append(inconclusive, fmt.Sprintf("%s: VACUOUS the reachability twin did not report its violation", name))
